@@ -131,6 +131,21 @@ def wf_record(roll, r, tree, reg, problems, depth=0):
             if o.value is not None and id(o) not in ids:
                 problems.append("a live outcome of a source roll is not accounted for in the parent roll")
                 break
+    if k == "subst" and srolls:
+        wf_record(srolls[0], srcs[0], tree[4], reg, problems, depth + 1)
+        for ar in srolls[1:]:
+            ids2 = {id(o) for o in _reachable(list(ar))}
+            for sr in ar.source_rolls:
+                if any(o.value is not None and id(o) not in ids2 for o in sr):
+                    problems.append("K2: an adopted expansion roll (Roll.adopt in SubstitutionRoller) does not account "
+                                    "for a live outcome of its source roll")
+                    break
+            for o in _reachable(list(ar)):
+                try:
+                    o.source_roll
+                except AssertionError:
+                    problems.append("an outcome reachable from an adopted roll is not associated with a roll")
+                    break
     if depth < 6 and k != "subst":
         subs = {"pool": lambda: tree[1], "select": lambda: tree[2], "filter": lambda: tree[2], "repeat": lambda: [tree[2]] * tree[1],
                 "bin": lambda: [tree[2], tree[3]], "un": lambda: [tree[2]]}.get(k, lambda: [])()
@@ -204,9 +219,30 @@ def agree(case, r, o):
     return all(("exc" in p["result"]) or not p["result"].get("problems") for p in r["paths"])
 
 
+def known_finding(case, known):
+    """K2: only when every problem reported on every path is the adopted-roll one"""
+    return None   # decided per result in common via known_finding_result
+
+
+def known_finding_result(case, r, known):
+    probs = [p for path in r.get("paths", []) for p in path["result"].get("problems", [])]
+    if probs and all(p.startswith("K2:") for p in probs):
+        for f in known.get("findings", []):
+            if f.get("property") == "C12" and f.get("predicate") == "adopted_expansion_roll_drops_source_outcomes":
+                return f["text"]
+    return None
+
+
 def nontrivial(case, r):
     return case["tree"][0] not in ("val", "h", "p") and len(r.get("paths", [])) >= 2
 
 
 def case_class(case, r):
     return case["tree"][0]
+
+
+UNITS_NAME = "answer_paths_explored"
+
+
+def units(case, r):
+    return len(r.get('paths', []))
